@@ -225,8 +225,85 @@ def runHv (cmd name tmplS impl : String) : Ans :=
         else if impl == m then "ok" else "FAIL:variable-expansion"
       { model := m, verdict := verdict, tags := tags }
 
+/-- `ml` ops: module life cycle.  conf = `<ver>@<prod>><act>+<act>~<prod>><act>` | `!...` -/
+def parseMlConf (c : String) : Option (List (String × List (Str × List Str))) :=
+  if c.startsWith "!" then none
+  else match c.splitOn "@" with
+    | [_, body] =>
+      if body.isEmpty then some []
+      else some ((body.splitOn "~").map fun pr =>
+        match pr.splitOn ">" with
+        | p :: rest => (p, ((">".intercalate rest).splitOn "+").map parseAct)
+        | [] => ("", []))
+    | _ => none
+
+/-- does the module's loader accept the rule file? (every action must pass the module's ActionFileCheck) -/
+def mlValid (mod : String) (conf : List (String × List (Str × List Str))) : Bool :=
+  conf.all fun pr =>
+    if mod == "rw" then (match loadAll "rw" pr.2 with | .ok _ => true | .error _ => false)
+    else if mod == "hd" then pr.2.all fun a => (match headerCheck (sOf a.1) a.2 with | .ok _ => true | .error _ => false)
+    else (match redirectCheck (pr.2.map fun a => (sOf a.1, some a.2)) with | .ok _ => true | .error _ => false)
+
+def mlQuery (mod : String) (table : Option (List (String × List (Str × List Str)))) (product : String) : String :=
+  let r0 : Req := { host := "example.org".toList, path := "/a/b".toList, rawQuery := "x=1".toList, hdr := [] }
+  if mod == "rw" then
+    let r := match tableSearch table product with
+      | none => r0
+      | some acts => (match loadAll "rw" acts with
+          | .ok cmds => cmds.foldl (fun (r : Req) (a : Cmd × List Str) => doAction a.1 a.2 r) r0
+          | .error _ => r0)
+    "q(" ++ sOf r.host ++ "," ++ sOf r.path ++ "," ++ (if r.rawQuery.isEmpty then "-" else sOf r.rawQuery) ++ ")"
+  else if mod == "rd" then
+    match tableSearch table product with
+    | none => "q(goon)"
+    | some acts =>
+      (match redirectCheck (acts.map fun a => (sOf a.1, some a.2)) with
+       | .ok (c, p) => "q(302:" ++ sOf (doRedirect c p r0.host r0.path r0.rawQuery) ++ ")"
+       | .error _ => "q(goon)")
+  else
+    -- global rules first, then the product's; REQ_ actions on the request, RSP_ actions on the response
+    let apply (pfx : String) (h : List (Str × List Str)) (prod : String) : List (Str × List Str) :=
+      match tableSearch table prod with
+      | none => h
+      | some acts =>
+        (acts.filter fun a => (sOf a.1).startsWith pfx).foldl (fun (h : List (Str × List Str)) (a : Str × List Str) =>
+          match headerCheck (sOf a.1) a.2 with
+          | .ok (c, ps) => doHeader c ps h
+          | .error _ => h) h
+    let rq := apply "REQ_" (apply "REQ_" [] "global") product
+    let rs := apply "RSP_" (apply "RSP_" [] "global") product
+    "q(" ++ renderHdrOnly rq ++ "/" ++ renderHdrOnly rs ++ ")"
+
+def runMl (mod confsS stepsS impl : String) : Ans :=
+  let confs := (confsS.splitOn "|").map parseMlConf
+  let accepted (k : Nat) : Option (List (String × List (Str × List Str))) :=
+    match confs.getD k none with
+    | some c => if mlValid mod c then some c else none
+    | none => none
+  -- (table, initialised, stopped, outputs)
+  let st := (stepsS.splitOn ",").foldl (fun (st : Option (List (String × List (Str × List Str))) × Bool × Bool × List String) step =>
+    let (table, inited, stopped, out) := st
+    if stopped then st
+    else if step.startsWith "I" then
+      (match accepted ((step.drop 1).toString.toNat?.getD 0) with
+       | some c => (some c, true, false, out ++ ["I=ok"])
+       | none => (none, false, true, out ++ ["I=err"]))
+    else if step.startsWith "R" then
+      (match accepted ((step.drop 1).toString.toNat?.getD 0) with
+       | some c => (some c, inited, false, out ++ ["R=ok"])
+       | none => (table, inited, false, out ++ ["R=err"]))
+    else (table, inited, false, out ++ [mlQuery mod table (step.drop 2).toString])) (none, false, false, [])
+  let m := ";".intercalate st.2.2.2
+  let reloads := ((stepsS.splitOn ",").filter fun s => s.startsWith "R").length
+  let bad := (confsS.splitOn "|").any fun c => c.startsWith "!"
+  -- the oracle: the documented reading of a reload is exactly "the rules of the last accepted file, and only those"
+  { model := m, verdict := if impl == m then "ok" else "FAIL:reload-history",
+    tags := ["ml", "ml-" ++ mod] ++ (if reloads > 0 then ["nt"] else []) ++ (if reloads > 1 then ["multi-reload"] else []) ++
+            (if bad then ["bad-conf"] else []) }
+
 def run (op impl : String) : Ans :=
   match op.splitOn " " with
+  | ["ml", mod, confs, steps] => runMl mod confs steps impl
   | ["hv", _, cmd, name, tmpl] => runHv cmd name tmpl impl
   | ["hd", _, hdrs, actsS] => runHd hdrs actsS impl
   | ["rd", host, path, rawq, actsS] => runRd host path rawq actsS impl
